@@ -19,7 +19,7 @@ from typing import Any, Dict, List, Optional, Tuple
 from ..cfg import cfg_of
 from ..consteval import ConstEval
 from ..flow import Sym, fpaths, attr_effects, feasible, allfacts
-from ..model import FuncInfo, attr_chain, norm, walk_no_nested
+from ..model import FuncInfo, attr_chain, norm, walk_no_nested, AnalysisError
 from ..report import Checker
 from .common import idle_predicate_check
 
@@ -28,6 +28,7 @@ def run(ch: Checker) -> None:
     prog = ch.prog
     ce = ConstEval(prog)
     ch.rule('C20.1', 'is_inactive(): True only with `not work.has_buffer()` and `_connection_inactive_for() > flags.timeout`; _connection_inactive_for = time.time() - self.last_activity', 3)
+    ch.rule('C20.6', 'who may write to the client socket: the client connection is flushed only from BaseTcpServerHandler.handle_writables (behind the activity stamp of its override), the final flush of threaded shutdown, and TcpClientConnection.wrap (before the TLS handshake); plugins queue, they do not flush', 3)
     ch.rule('C20.2', 'HttpProtocolHandler.handle_readables / handle_writables store last_activity = time.time() before delegating the client read / flush to the base class; '
                      'last_activity is written only in __init__ and those two methods', 3)
     ch.rule('C20.3', 'Threadless._cleanup_inactive collects a work id only when its is_inactive() returned True (or raised) and cleans up exactly the collected ids', 1)
@@ -112,6 +113,24 @@ def run(ch: Checker) -> None:
     ch.check(writers == allowed, 'C20.2', hph.methods['__init__'], 'who may write last_activity', 'last_activity written only by %s' % sorted(writers),
              'last_activity is written by %s (expected exactly %s): activity that is not client-side read/write readiness moves the idle clock, or client activity no longer does' % (sorted(writers), sorted(allowed)))
 
+    # ---------------- C20.6 who may write to the client socket
+    allowed6 = {'BaseTcpServerHandler.handle_writables', 'HttpProtocolHandler._flush', 'TcpClientConnection.wrap'}
+    n6 = 0
+    for fn in prog.all_functions('proxy', include_inlined=True):
+        if fn.module.name.startswith('proxy.testing') or fn.cls is None:
+            continue
+        for c_ in walk_no_nested(fn.node):
+            if isinstance(c_, ast.Call) and isinstance(c_.func, ast.Attribute) and c_.func.attr == 'flush':
+                recv = attr_chain(c_.func.value) or ''
+                is_client = recv in ('self.client', 'self.work') or (recv == 'self' and any(b.name == 'TcpClientConnection' for b in [fn.cls] + prog.mro(fn.cls)))
+                if not is_client:
+                    continue
+                n6 += 1
+                ch.check(fn.qualname in allowed6, 'C20.6', fn, c_, 'client output leaves through the handler\'s write path',
+                         '%s writes to the client socket itself: the idle clock is stamped in HttpProtocolHandler.handle_writables, only when the client is write-ready AND still has output queued; output pushed '
+                         'out from here never passes that point, so a connection that is being written to all the time looks idle and is reaped after --timeout' % fn.qualname)
+    if n6 == 0:
+        raise AnalysisError('anchor vanished: no flush of the client connection found')
     # ---------------- C20.3
     ci = prog.own_method('Threadless', '_cleanup_inactive')
     g = cfg_of(ci, prog)
